@@ -909,6 +909,12 @@ func c10Cases(tier string) []c10Case {
 			})
 		}
 	}
+	// swaps of two pairs of rows (4 and 5 rows): each pair draws its own position, every order and position
+	for _, sh := range [][2]int{{4, 3}, {4, 4}, {5, 3}} {
+		for _, pos := range []float64{-1, 0.5} {
+			add(c10Case{Op: "swap", Seqs: c10Coded(sh[0], sh[1], nt), Alpha: nt, F1: 1, F2: pos})
+		}
+	}
 	add(c10Case{Op: "mutate", Seqs: []string{"L-"}, Alpha: align.AMINOACIDS, F1: 0.5})
 	add(c10Case{Op: "mutate", Seqs: []string{"L.", "*E"}, Alpha: align.AMINOACIDS, F1: 1})
 	// seed replay in pass-through mode
@@ -939,7 +945,7 @@ func init() {
 	mc.Register(&mc.Prop{
 		ID:    "C10",
 		Level: "model_checking",
-		Rule: "for each randomised operation (ShuffleSequences, ShuffleSites, Swap, SimulateRogue, BuildBootstrap (also block-wise followed by Concat, as build seqboot --partition does), Sample, SampleSeqBag, RandSubAlign, Recombine, AddGaps, Mutate, Rarefy) on position-coded alignments of every shape n<=3 x L<=3 (4x4 for the support-checked operations in thorough) and on all alignments n<=2,L<=2 over {A,C,-} for the content-sensitive ones, with all listed parameter values: EVERY sequence of RNG answers (rand.Intn: all n values; rand.Perm: all n! orders; rand.Float64: representatives on both sides of and at every threshold the code compares with) is executed; states/transitions are nodes/edges of the RNG choice trees; " +
+		Rule: "for each randomised operation (ShuffleSequences, ShuffleSites, Swap, SimulateRogue, BuildBootstrap (also block-wise followed by Concat, as build seqboot --partition does), Sample, SampleSeqBag, RandSubAlign, Recombine, AddGaps, Mutate, Rarefy) on position-coded alignments of every shape n<=3 x L<=3 (4x4 for the support-checked operations in thorough; Swap of two pairs of rows on 4x3, 4x4, 5x3) and on all alignments n<=2,L<=2 over {A,C,-} for the content-sensitive ones, with all listed parameter values: EVERY sequence of RNG answers (rand.Intn: all n values; rand.Perm: all n! orders; rand.Float64: representatives on both sides of and at every threshold the code compares with) is executed; states/transitions are nodes/edges of the RNG choice trees; " +
 			"per leaf the operation's invariant, per tree reached-outcome set == admissible set where the statement pins the support down (row shuffle, bootstrap, sampling, site sampling, full site shuffle); seed replay with the real stream for seeds 0,1,42 twice and under map-order choices, on 3x3 and (for operations reporting name lists or pairing rows) 4x4 alignments. distinct_nontrivial = distinct (case, answer sequence) leaves whose invariant was checked.",
 		Assumptions: []string{
 			"rand.Intn(n) can return every value of [0,n) and rand.Perm every permutation (positive probability is decided as reachability over RNG answers)",
